@@ -45,6 +45,13 @@ def check(prog, run, rule_id, starts, what, consequence, floor):
             txt = ast.unparse(d)
             head = txt.split("(")[0].split(".")[-1].lower()
             if "cache" in head or "memo" in head:
+                a = f.node.args
+                ps = [x for x in a.posonlyargs + a.args + a.kwonlyargs if x.arg not in ("self", "cls")]
+                unsafe = [x.arg for x in ps if x.annotation is None or ast.unparse(x.annotation) not in ("str", "bytes", "Optional[str]", "Optional[bytes]")]
+                if f.cls is not None and not ps:
+                    unsafe = ["self"]
+                if not unsafe or "typed=True" in txt.replace(" ", ""):
+                    continue    # a pure function of immutable, type-stable text: remembering its answers is not observable
                 run.report(r, "%s:%s:memoised(%s)" % (f.module.name, f.qualname, txt.split("(")[0]), f.where(),
                            "%s is decorated with @%s and is reachable from %s: %s" % (f.qualname, txt, what, consequence))
     return fns
